@@ -102,6 +102,9 @@ func c14Join(w *mon.W, idx int) {
 	if n > 0 && (high || width == 64) {
 		w.Distinct(gen.Hash64(uint64(width), gen.HashWords(in)))
 	}
+	if !retainCheck(w, "Join", "bitmap.Join", func() uint64 { return gen.HashWords(got) }) {
+		return
+	}
 	w.Sample(func() interface{} {
 		return mon.D{"call": "Join+Getw", "width": width, "values": truncW(in, 4), "n": n, "result_words": len(got)}
 	})
@@ -115,6 +118,9 @@ func c14CheckSlice(w *mon.W, words, orig []uint64, from, to int) bool {
 	expLen := (n + 63) / 64
 	if len(got) != expLen {
 		w.Fail("Slice/len", mon.D{"words": truncW(orig, 4), "nwords": len(orig), "from": from, "to": to, "got_words": len(got), "expected_words": expLen})
+		return false
+	}
+	if (from+to)%7 == 0 && !retainCheck(w, "Slice", "bitmap.Slice", func() uint64 { return gen.HashWords(got) }) {
 		return false
 	}
 	for k := 0; k < expLen; k++ {
